@@ -57,10 +57,13 @@ Check == idx > 0 =>
       adm(e) == Admissible(e, doc)
       case == [p |-> Prop, kind |-> "search", doc |-> doc,
                multi |-> { [expr |-> Render(e), adm |-> adm(e), carriers |-> cr] : e \in Exprs, cr \in assigns }]
-      \* Where the specification leaves the VALUE open (// and % of operands of opposite sign, ...) the
-      \* property still says that it does not depend on the carrier: all assignments must agree
+      \* Where the specification leaves the VALUE of // and % open (operands of opposite sign) the property still
+      \* says that it does not depend on the carrier: all assignments must agree.  (Only these two: an open
+      \* quotient such as 0.5 / -7 is not exactly representable, which C14 excludes -- demanding agreement there
+      \* was a false alarm of the first version of this case.)
       agree == [p |-> Prop, kind |-> "search", doc |-> doc,
-                multi |-> { [expr |-> Render(e), adm |-> adm(e), carriersets |-> SetToSeq(assigns)] : e \in { x \in Exprs : Open \in adm(x) } }]
+                multi |-> { [expr |-> Render(e), adm |-> adm(e), carriersets |-> SetToSeq(assigns)] :
+                            e \in { x \in {<<A, IDivT, B>>, <<A, ModT, B>>} : Open \in adm(x) } }]
   IN /\ Emit => PrintT("CASE " \o ToJson(case))
      /\ (Emit /\ agree.multi # {}) => PrintT("CASE " \o ToJson(agree))
 =============================================================================
